@@ -239,7 +239,7 @@ impl Property for P {
                 format!("all {}-call histories over inputs {{0,1,2,5,6,7}} x outputs 0..=12, Flow API", l),
             ),
             Workload::new("hist3-call", OPS.pow(3), true, "all 3-call histories over the same alphabet, single-call (Call) API"),
-            Workload::new("random", tier.pick(100_000, 2_000_000), false, "random histories (1..30 calls), inputs up to 35 KB, Flow and Call API"),
+            Workload::new("random", tier.pick(100_000, 6_000_000), false, "random histories (1..30 calls), inputs up to 35 KB, Flow and Call API"),
         ]
     }
     fn run_case(&self, wl: &str, idx: u64, seed: u64, rec: &mut Rec) {
